@@ -25,6 +25,11 @@ DEFAULT_FEAT = dict(
 )
 
 
+# values whose printed form needs care: exponent notation, many digits, non-dyadic fractions, large magnitudes
+HARD_NUMBERS = [1e-05, 2.5e-07, 1.234e-05, 4.2857142857142856e-05, -1.25e-05, 1e-11, 0.1 + 0.2, 1 / 3, 123456789.125,
+                1e16, -7e-05, 0.30000000000000004, 5e-324, 1.7976931348623157e+308 / 1e300]
+
+
 def is_sub(types, a, b):
     while True:
         if a == b:
@@ -235,9 +240,13 @@ def gen_problem(t, D, feat=None, agents=0):
             if t.chance(1, 3):
                 facts.add((p,) + combo)
     fl = {}
+    hard = f.get("hard_numbers", False)
     for fn, sig in D["functions"].items():
         for combo in itertools.product(*[objects_of(D, allobj, ty) for ty in sig]):
-            fl[(fn,) + combo] = t.num()
+            if hard and t.chance(1, 3):
+                fl[(fn,) + combo] = HARD_NUMBERS[t.draw(len(HARD_NUMBERS))]
+            else:
+                fl[(fn,) + combo] = t.num()
     goal = []
     for _ in range(t.draw(3)):
         if facts and t.chance(1, 2):
